@@ -594,7 +594,44 @@ def rule_redeem_script_refusals(ctx: Ctx, rep: Report) -> None:
     rep.floor(rule, 2)
 
 
+def rule_annex_whole(ctx: Ctx, rep: Report) -> None:
+    """C09.annex_whole: BIP341 hashes the annex "including the mandatory 0x50
+    prefix": `sha_annex = SHA256(compact_size(len) || annex)` over the whole
+    last witness element. Both places that split the annex off a witness stack
+    (the engine's `taproot_get_annex`, sig_hash's `taproot_annex_and_ext`)
+    answer, under the test that the element starts with 0x50, the element
+    itself -- not a slice of it: an annex handed on without its tag byte is
+    another message, and a correctly signed spend with an annex is refused."""
+    rule = "C09.annex_whole"
+    n = 0
+    for q in ("btclib.script.engine.taproot_get_annex", "btclib.script.sig_hash.taproot_annex_and_ext"):
+        fi = ctx.func(q)
+        g = ctx.cfg(fi)
+        cands: list[ast.AST] = []
+        for r in own_nodes(fi.node):
+            if isinstance(r, ast.Return) and isinstance(r.value, ast.Tuple) and r.value.elts:
+                cands.append(r.value.elts[0])
+            if isinstance(r, ast.Assign) and isinstance(r.targets[0], ast.Name) and "annex" in r.targets[0].id.lower():
+                cands.append(r.value)
+        for e in cands:
+            facts = [str(t) for t, pol in g.facts_at_ast(e) if pol]
+            def _tagged(t: str) -> bool:
+                try:
+                    return any(isinstance(x, ast.Constant) and x.value in (b"\x50", 0x50) for x in ast.walk(ast.parse(t, mode="eval")))
+                except SyntaxError:
+                    return False
+            if not any(_tagged(t) for t in facts):
+                continue
+            n += 1
+            whole = isinstance(e, ast.Subscript) and not isinstance(e.slice, ast.Slice) and ctx.fold(e.slice, fi.module) == -1
+            rep.ob(rule, f"{fi.name}:annex", whole, fi.where(e), f"the annex is the whole element `{norm(e)}`" if whole else
+                   f"the annex is answered as `{norm(e)}`: BIP341 hashes the element with its 0x50 tag, and this is another message")
+    rep.floor(rule, 2)
+
+
 RULES = [
+    ("C09.annex_whole", rule_annex_whole),
+
     ("C09.script_code_order", rule_script_code_order),
     ("C09.redeem_script_refusals", rule_redeem_script_refusals),
 
